@@ -3,7 +3,6 @@ package coraza
 import (
 	"github.com/corazawaf/coraza/v3/internal/corazawaf"
 	"github.com/corazawaf/coraza/v3/internal/vp"
-	"github.com/corazawaf/coraza/v3/types"
 )
 
 // vpC03Encode is the harness's own form encoder: every byte is written raw (when that is legal
@@ -47,14 +46,6 @@ func vpC03Pairs() ([]vpKV, string) {
 		qs += vpC03Encode(k) + "=" + vpC03Encode(v)
 	}
 	return pairs, qs
-}
-
-func vpC03Dump(ms []types.MatchData) []string {
-	var out []string
-	for _, m := range ms {
-		out = append(out, m.Key()+"\x00="+m.Value())
-	}
-	return out
 }
 
 func vpC03Want(pairs []vpKV) ([]string, []string) {
